@@ -159,6 +159,20 @@ def main(argv=None):
   except ValueError:
     seed = 1
   t0 = time.time()
+  # overall wall-clock budget: code under test that blocks in real time (a primitive the harness does not
+  # virtualise) must not hang the check - it ends "inconclusive" (exit 2), never as a violation
+  budget = int(os.environ.get('VERIF_BUDGET_S') or (1800 if args.tier == 'quick' else 4 * 3600))
+
+  def out_of_time(signum, frame):
+    print('harness error: %s %s tier exceeded its wall-clock budget of %d s (inconclusive)' % (prop, args.tier, budget))
+    sys.stdout.flush()
+    os._exit(2)
+  try:
+    import signal
+    signal.signal(signal.SIGALRM, out_of_time)
+    signal.alarm(budget)
+  except Exception:  # noqa: no alarm on this platform
+    pass
   try:
     mod = load_module(prop)
     if args.replay:
